@@ -91,6 +91,51 @@ enum Inp {
 enum VRate {
     Raw,
     Factor(f64),
+    Offset(f64),
+    /// applied one after the other, in order; in a configuration file or a query: ["combined", rate, rate, ..]
+    Combined(Vec<VRate>),
+}
+fn vr_json(r: &VRate) -> Value {
+    match r {
+        VRate::Raw => Value::Null,
+        VRate::Factor(f) => json!(f),
+        VRate::Offset(o) => json!({"offset": o}),
+        VRate::Combined(l) => json!({"combined": l.iter().map(vr_json).collect::<Vec<_>>()}),
+    }
+}
+fn vr_from(v: &Value) -> VRate {
+    if let Some(f) = v.as_f64() {
+        VRate::Factor(f)
+    } else if let Some(o) = v.get("offset").and_then(|x| x.as_f64()) {
+        VRate::Offset(o)
+    } else if let Some(l) = v.get("combined").and_then(|x| x.as_array()) {
+        VRate::Combined(l.iter().map(vr_from).collect())
+    } else {
+        VRate::Raw
+    }
+}
+/// the rate as the repository's serde definition reads it (configuration file and query alike)
+fn vr_config(r: &VRate) -> Value {
+    match r {
+        VRate::Raw => json!({"type": "raw"}),
+        VRate::Factor(x) => json!({"type": "factor", "factor": x}),
+        VRate::Offset(x) => json!({"type": "offset", "offset": x}),
+        VRate::Combined(l) => Value::Array(std::iter::once(json!("combined")).chain(l.iter().map(vr_config)).collect()),
+    }
+}
+fn vr_coq(r: &VRate) -> String {
+    match r {
+        VRate::Raw => "Cost.VRaw".to_string(),
+        VRate::Factor(f) => format!("(Cost.VFactor {})", cnum(*f)),
+        VRate::Offset(o) => format!("(Cost.VOffset {})", cnum(*o)),
+        VRate::Combined(l) => format!("(Cost.VCombined {})", coq_list(l, vr_coq)),
+    }
+}
+fn vrs_json(l: &[(String, VRate)]) -> Value {
+    Value::Array(l.iter().map(|(n, r)| json!([n, vr_json(r)])).collect())
+}
+fn vrs_from(v: &Value) -> Vec<(String, VRate)> {
+    v.as_array().map(|a| a.iter().map(|x| (x[0].as_str().unwrap().to_string(), vr_from(&x[1]))).collect()).unwrap_or_default()
 }
 #[derive(Clone, Debug)]
 struct Cfg {
@@ -126,6 +171,11 @@ struct Qry {
     wf: Option<f64>,
     /// further top-level fields of the query, verbatim (road_classes with names, vehicle_parameters, k)
     extra: Map<String, Value>,
+    /// "vehicle_rates" / "cost_aggregation" ("sum" | "mul") of the query: replace the configured ones for this query
+    vrates: Option<Vec<(String, VRate)>>,
+    agg: Option<String>,
+    /// the queries the SAME application instance answered before this one, in order (one after another)
+    prefix: Vec<Qry>,
 }
 
 fn feat_json(f: &Feat) -> Value {
@@ -166,7 +216,7 @@ fn cfg_json(c: &Cfg) -> Value {
         "input": match c.input { Inp::None => "none", Inp::Vertex => "vertex", Inp::Edge => "edge" },
         "route_fmt": c.route_fmt, "tree_fmt": c.tree_fmt, "summary": c.summary,
         "weights": wts_json(&c.weights),
-        "vrates": Value::Array(c.vrates.iter().map(|(n, r)| match r { VRate::Raw => json!([n, null]), VRate::Factor(f) => json!([n, f]) }).collect()),
+        "vrates": vrs_json(&c.vrates),
         "frontier": c.frontier.as_ref().map(fcfg_to_json), "term": c.term, "ksp": c.ksp.as_ref().map(ksp_to_json),
     })
 }
@@ -198,7 +248,7 @@ fn cfg_from(v: &Value) -> Cfg {
         tree_fmt: s(&v["tree_fmt"]),
         summary: v["summary"].as_bool().unwrap(),
         weights: wts_from(&v["weights"]),
-        vrates: v["vrates"].as_array().unwrap().iter().map(|x| (x[0].as_str().unwrap().to_string(), match x[1].as_f64() { None => VRate::Raw, Some(f) => VRate::Factor(f) })).collect(),
+        vrates: vrs_from(&v["vrates"]),
         frontier: v.get("frontier").filter(|x| !x.is_null()).map(fcfg_from_json),
         term: v.get("term").filter(|x| !x.is_null()).cloned(),
         ksp: v.get("ksp").filter(|x| !x.is_null()).map(ksp_from_json),
@@ -206,7 +256,8 @@ fn cfg_from(v: &Value) -> Cfg {
 }
 fn qry_json(q: &Qry) -> Value {
     json!({"o": q.o, "d": q.d, "classes": q.classes, "weights": q.weights.as_ref().map(|w| wts_json(w)), "user": feats_json(&q.user), "wf": q.wf,
-           "extra": enc(&Value::Object(q.extra.clone()))})
+           "extra": enc(&Value::Object(q.extra.clone())), "vrates": q.vrates.as_ref().map(|l| vrs_json(l)), "agg": q.agg,
+           "prefix": q.prefix.iter().map(qry_json).collect::<Vec<_>>()})
 }
 fn qry_from(v: &Value) -> Qry {
     Qry {
@@ -217,6 +268,9 @@ fn qry_from(v: &Value) -> Qry {
         user: feats_from(&v["user"]),
         wf: v["wf"].as_f64(),
         extra: v.get("extra").map(dec).and_then(|x| x.as_object().cloned()).unwrap_or_default(),
+        vrates: v.get("vrates").filter(|x| !x.is_null()).map(vrs_from),
+        agg: v.get("agg").and_then(|x| x.as_str()).map(|x| x.to_string()),
+        prefix: v.get("prefix").and_then(|x| x.as_array()).map(|a| a.iter().map(qry_from).collect()).unwrap_or_default(),
     }
 }
 
@@ -325,10 +379,7 @@ fn config_value(c: &Cfg, f: &Files) -> Value {
     }
     let mut vrates = Map::new();
     for (n, r) in &c.vrates {
-        vrates.insert(n.clone(), match r {
-            VRate::Raw => json!({"type": "raw"}),
-            VRate::Factor(x) => json!({"type": "factor", "factor": x}),
-        });
+        vrates.insert(n.clone(), vr_config(r));
     }
     let frontier = if let Some(fc) = &c.frontier {
         let mut files = FFiles { dir: f.net.dir.clone(), n: 0 };
@@ -444,6 +495,16 @@ fn query_value(c: &Cfg, q: &Qry) -> Value {
             wm.insert(n.clone(), json!(x));
         }
         m.insert("weights".into(), Value::Object(wm));
+    }
+    if let Some(l) = &q.vrates {
+        let mut vm = Map::new();
+        for (n, r) in l {
+            vm.insert(n.clone(), vr_config(r));
+        }
+        m.insert("vehicle_rates".into(), Value::Object(vm));
+    }
+    if let Some(a) = &q.agg {
+        m.insert("cost_aggregation".into(), json!(a));
     }
     if !q.user.is_empty() {
         m.insert("state_features".into(), features_value(&q.user));
@@ -679,7 +740,11 @@ fn dist_cfg(net: Net, unit: &str, initial: f64) -> Cfg {
     c
 }
 fn plain_q(o: usize, d: Option<usize>) -> Qry {
-    Qry { o, d, classes: None, weights: None, user: vec![], wf: None, extra: Map::new() }
+    Qry { o, d, classes: None, weights: None, user: vec![], wf: None, extra: Map::new(), vrates: None, agg: None, prefix: vec![] }
+}
+/// every class, "no_turn" included, has its own non-zero delay (app_sums)
+fn full_turn_table_nz(base: f64) -> Vec<(String, f64)> {
+    TURNS.iter().enumerate().map(|(i, t)| (t.to_string(), base * (i as f64 + 0.5))).collect()
 }
 fn full_turn_table(base: f64) -> Vec<(String, f64)> {
     TURNS.iter().enumerate().map(|(i, t)| (t.to_string(), if i == 0 { 0.0 } else { base * i as f64 })).collect()
@@ -1104,17 +1169,13 @@ fn coq_case(c: &Cfg, q: &Qry) -> String {
         ),
     };
     let weights = q.weights.as_ref().unwrap_or(&c.weights);
+    // the rates in force for THIS query: the query's weights / vehicle_rates / cost_aggregation replace the configured ones
+    let vrates = q.vrates.as_ref().unwrap_or(&c.vrates);
     let cost = format!(
-        "(TR.Build_cost_cfg {} {} [] Cost.ASum)",
+        "(TR.Build_cost_cfg {} {} [] {})",
         coq_list(weights, |(n, w)| format!("({}, {})", coq_string(n), cnum(*w))),
-        coq_list(&c.vrates, |(n, r)| format!(
-            "({}, {})",
-            coq_string(n),
-            match r {
-                VRate::Raw => "Cost.VRaw".to_string(),
-                VRate::Factor(f) => format!("Cost.VFactor {}", cnum(*f)),
-            }
-        ))
+        coq_list(vrates, |(n, r)| format!("({}, {})", coq_string(n), vr_coq(r))),
+        if q.agg.as_deref() == Some("mul") { "Cost.AMul" } else { "Cost.ASum" }
     );
     format!(
         "(fun (A : Type) (c : float -> A) => TR.Build_case_t {} {} {} {} {} {} {} (TR.OForward []) true)",
@@ -1127,6 +1188,36 @@ fn coq_case(c: &Cfg, q: &Qry) -> String {
         cost
     )
 }
+/// route.cost_model (CostModel::serialize_cost_info) in canonical text: per feature (sorted by name) its weight and
+/// vehicle rate, then the aggregation -- the cost model THIS response was computed with, as the application reports it
+fn echo_of(v: &Value) -> String {
+    let m = match v.as_object() {
+        Some(m) => m,
+        None => return "none".into(),
+    };
+    let mut feats: Vec<(String, String)> = vec![];
+    let mut agg = "?".to_string();
+    for (k, x) in m {
+        if k == "cost_aggregation" {
+            agg = x.as_str().unwrap_or("?").to_string();
+            continue;
+        }
+        let w = x.get("weight").and_then(|y| y.as_f64()).map(show_f64).unwrap_or("?".into());
+        let r = match x.get("vehicle_rate") {
+            Some(Value::String(t)) if t.starts_with("Combined(") => "combined".to_string(),
+            Some(Value::Object(o)) => match o.get("type").and_then(|t| t.as_str()) {
+                Some("factor") => format!("factor({})", o.get("factor").and_then(|y| y.as_f64()).map(show_f64).unwrap_or("?".into())),
+                Some("offset") => format!("offset({})", o.get("offset").and_then(|y| y.as_f64()).map(show_f64).unwrap_or("?".into())),
+                Some(t) => t.to_string(),
+                None => "?".into(),
+            },
+            _ => "?".into(),
+        };
+        feats.push((k.clone(), format!("{}:w={},v={}", k, w, r)));
+    }
+    feats.sort_by(|a, b| a.0.as_bytes().cmp(b.0.as_bytes()));
+    format!("{};agg={}", feats.into_iter().map(|x| x.1).collect::<Vec<_>>().join(";"), agg)
+}
 fn show_kv(kv: &[(String, f64)]) -> String {
     format!("{{{}}}", kv.iter().map(|(k, v)| format!("{}:{}", k, show_f64(*v))).collect::<Vec<_>>().join(","))
 }
@@ -1136,6 +1227,27 @@ fn add_sums(cx: &mut Ctx, fam: &str, c: &Cfg, q: &Qry) {
         Ok(a) => a,
         Err(e) => return build_failed(cx, fam, c, q, &e),
     };
+    // a sequence: the queries this application instance answered before (one after another; their answers are judged
+    // by the cases that have them as their last query)
+    for pq in &q.prefix {
+        let _ = run_query(&app, &query_value(c, pq));
+    }
+    if !q.prefix.is_empty() {
+        cx.st.count(&format!("sequence_position:{}", q.prefix.len() + 1));
+        let over = |x: &Qry| x.weights.is_some() || x.vrates.is_some() || x.agg.is_some();
+        if q.prefix.iter().any(over) && !over(q) {
+            cx.st.count("plain_query_after_cost_override");
+        }
+    }
+    if q.vrates.is_some() {
+        cx.st.count("query:vehicle_rates");
+    }
+    if q.agg.is_some() {
+        cx.st.count("query:cost_aggregation");
+    }
+    if c.vrates.iter().chain(q.vrates.iter().flatten()).any(|(_, r)| matches!(r, VRate::Combined(_))) {
+        cx.st.count("combined_vehicle_rate");
+    }
     let query = query_value(c, q);
     let r = run_query(&app, &query);
     let s = semantics(c, q, &r);
@@ -1164,7 +1276,8 @@ fn add_sums(cx: &mut Ctx, fam: &str, c: &Cfg, q: &Qry) {
             .unwrap_or_default();
         let totals: Vec<f64> = r.recs.iter().map(|et| et.total_cost().as_f64()).collect();
         let route = show_list(&r.recs, |et| format!("{}:{}:{}:{}", et.edge_id.0, show_f64(et.access_cost.as_f64()), show_f64(et.traversal_cost.as_f64()), show_list(&et.result_state, |x| show_f64(x.0))));
-        let payload = format!("route={}/{} sum={} cost={}", route, show_list(&totals, |x| show_f64(*x)), show_kv(&r.summary), show_kv(&r.cost));
+        let echo = echo_of(r.raw.get("route").and_then(|x| x.get("cost_model")).unwrap_or(&Value::Null));
+        let payload = format!("route={}/{} sum={} cost={} echo={}", route, show_list(&totals, |x| show_f64(*x)), show_kv(&r.summary), show_kv(&r.cost), echo);
         let gen = coq_case(c, q);
         let path = coq_list(&r.path, |e| coq_nat(*e));
         let recs = coq_list(&r.recs, |et| {
@@ -1254,7 +1367,7 @@ fn add_sums_multi(cx: &mut Ctx, fam: &str, c: &Cfg, q: &Qry, app: &Arc<CompassAp
             })
             .collect::<Vec<_>>()
             .join(" ");
-        let payload = format!("{} sums={} costs={}", text, show_list(&routes, |ro| show_kv(&ro.summary)), show_list(&routes, |ro| show_kv(&ro.cost)));
+        let payload = format!("{} sums={} costs={} echo={}", text, show_list(&routes, |ro| show_kv(&ro.summary)), show_list(&routes, |ro| show_kv(&ro.cost)), routes.iter().map(|ro| ro.echo.clone()).collect::<Vec<_>>().join("|"));
         let gen = coq_case(c, q);
         let kv = |l: &[(String, f64)]| coq_list(l, |(k, v)| format!("({}, {})", coq_string(k), coq_f64(*v)));
         let recs = |ro: &RouteOut| {
@@ -1426,7 +1539,7 @@ fn sums_shapes() -> Vec<(String, Cfg, Qry)> {
     for (i, u) in TIME.iter().enumerate() {
         let mut c = json_route(base_cfg(net.clone()));
         c.tm = Tm::Speed { su: "KilometersPerHour".into(), du: None, tu: Some(TIME[(i + 1) % 4].into()) };
-        c.turn = Some(TurnCfg { headings: geo_headings(&net), table: full_turn_table(1.5), unit: u.to_string() });
+        c.turn = Some(TurnCfg { headings: geo_headings(&net), table: full_turn_table_nz(1.5), unit: u.to_string() });
         c.astar = i % 2 == 0;
         out.push(("turn_delay_unit".into(), c.clone(), plain_q(0, Some(4))));
         if i == 0 {
@@ -1435,7 +1548,7 @@ fn sums_shapes() -> Vec<(String, Cfg, Qry)> {
     }
     // the query's own state features (units and initial values), weights, weight factor
     let mut c = json_route(base_cfg(net.clone()));
-    c.turn = Some(TurnCfg { headings: geo_headings(&net), table: full_turn_table(4.0), unit: "Seconds".into() });
+    c.turn = Some(TurnCfg { headings: geo_headings(&net), table: full_turn_table_nz(4.0), unit: "Seconds".into() });
     let mut q = plain_q(0, Some(4));
     q.user = vec![("distance".into(), Feat::Distance("Miles".into(), 5.0)), ("time".into(), Feat::Time("Hours".into(), 0.25))];
     out.push(("query_state_features".into(), c.clone(), q));
@@ -1475,7 +1588,7 @@ fn sums_shapes() -> Vec<(String, Cfg, Qry)> {
             ck.ksp = Some(KspCfg { yens: false, k, sim: None, term: None });
             if (k + j) % 2 == 1 {
                 let n = ck.net.clone();
-                ck.turn = Some(TurnCfg { headings: geo_headings(&n), table: full_turn_table(2.0), unit: "Seconds".into() });
+                ck.turn = Some(TurnCfg { headings: geo_headings(&n), table: full_turn_table_nz(2.0), unit: "Seconds".into() });
             }
             out.push((format!("ksp_single_via_k{}", k), ck.clone(), plain_q(0, Some(3))));
             // edge-oriented: from the first edge leaving vertex 0 to an edge that leaves vertex 3
@@ -1486,6 +1599,61 @@ fn sums_shapes() -> Vec<(String, Cfg, Qry)> {
                 out.push((format!("ksp_single_via_k{}_edge_oriented", k), ce, plain_q(o, Some(d))));
             }
         }
+    }
+    // collinear edges (exactly equal headings) with a non-zero "no_turn" delay: a junction costs time straight through
+    for (i, u) in ["Seconds", "Minutes"].iter().enumerate() {
+        let straight = net_of((0..5).map(cell).collect(), &[(0, 1), (1, 2), (2, 3), (3, 4), (4, 3), (3, 2)], |i| 1.05 + 0.1 * i as f64, |i| SPEEDS[i], |_| 0);
+        let mut cs = json_route(base_cfg(straight.clone()));
+        cs.astar = i == 0;
+        cs.weights = vec![("distance".into(), 1.0), ("time".into(), 1.0)];
+        cs.turn = Some(TurnCfg { headings: geo_headings(&straight), table: full_turn_table_nz(3.0), unit: u.to_string() });
+        out.push(("straight_through".into(), cs, plain_q(0, Some(4))));
+    }
+    // Combined vehicle rates, written in the configuration as ["combined", rate, rate, ..]: applied in the listed order
+    for (i, chain) in [
+        vec![VRate::Offset(25.0), VRate::Factor(0.01)],
+        vec![VRate::Factor(0.01), VRate::Offset(25.0)],
+        vec![VRate::Offset(4.0), VRate::Combined(vec![VRate::Factor(0.5), VRate::Offset(3.0), VRate::Factor(2.0)])],
+    ]
+    .into_iter()
+    .enumerate()
+    {
+        let mut cc = c.clone();
+        cc.astar = i % 2 == 0;
+        cc.weights = vec![("distance".into(), 2.0), ("time".into(), 1.0)];
+        cc.vrates = vec![("distance".into(), VRate::Combined(chain.clone())), ("time".into(), VRate::Factor(0.5))];
+        out.push(("combined_vehicle_rate".into(), cc.clone(), plain_q(0, Some(4))));
+        // the same chain brought by the query
+        let mut q = plain_q(0, Some(4));
+        q.vrates = Some(vec![("distance".into(), VRate::Raw), ("time".into(), VRate::Combined(chain))]);
+        out.push(("combined_vehicle_rate_in_query".into(), c.clone(), q));
+    }
+    // sequences on ONE application instance: the first query overrides a part of the cost model, the later ones are
+    // plain (or override something else): every answer under the rates in force for ITS OWN query
+    {
+        let mut cs = c.clone();
+        cs.weights = vec![("distance".into(), 0.25), ("time".into(), 1.0)];
+        let mut q1 = plain_q(0, Some(4));
+        q1.weights = Some(vec![("distance".into(), 1.0), ("time".into(), 0.0)]);
+        let mut q3 = plain_q(4, Some(0));
+        q3.vrates = Some(vec![("distance".into(), VRate::Factor(0.125)), ("time".into(), VRate::Offset(2.0))]);
+        let mut q5 = plain_q(0, Some(3));
+        q5.agg = Some("mul".into());
+        let steps = vec![q1.clone(), plain_q(0, Some(4)), q3, plain_q(1, Some(4)), q5, plain_q(0, Some(4))];
+        for k in 0..steps.len() {
+            let mut q = steps[k].clone();
+            q.prefix = steps[..k].to_vec();
+            let mut ck = cs.clone();
+            ck.astar = false; // a product of costs has no consistent estimate: Dijkstra for the whole sequence
+            out.push((format!("sequence_step{}", k + 1), ck, q));
+        }
+        // an override AFTER a plain query, and plain queries only
+        let mut q = q1.clone();
+        q.prefix = vec![plain_q(0, Some(4))];
+        out.push(("sequence_override_second".into(), cs.clone(), q));
+        let mut q = plain_q(4, Some(0));
+        q.prefix = vec![plain_q(0, Some(4)), plain_q(1, Some(3))];
+        out.push(("sequence_plain_only".into(), cs, q));
     }
     let mut ce = json_route(base_cfg(net.clone()));
     ce.edge_oriented = true;
@@ -1498,7 +1666,27 @@ fn sums_shapes() -> Vec<(String, Cfg, Qry)> {
 
 // ------------------------------------------------------------------------------------------ random cases
 
-fn gen_turn(r: &mut Rng, net: &Net) -> TurnCfg {
+fn gen_turn(r: &mut Rng, net: &Net, sums: bool) -> TurnCfg {
+    if sums {
+        // app_sums: every class (also no_turn, 4 times in 5) has its own non-zero delay; headings from the geometry
+        // (collinear edges share a heading), or from a small pool around one direction: differences of exactly 0, +-1,
+        // and the class boundaries 19/20, 44/45, 134/135, 159/160, 179/180
+        let headings: Vec<(i64, Option<i64>)> = match r.below(3) {
+            0 => geo_headings(net),
+            1 => {
+                let b = r.below(360) as i64;
+                let pool: Vec<i64> = [0i64, 0, 0, 1, -1, 19, 20, -19, -20, 44, 45, -45, 134, 135, -135, 159, 160, -160, 179, 180, -179].iter().map(|d| (b + d).rem_euclid(360)).collect();
+                net.edges.iter().map(|_| { let a = *r.pick(&pool); (a, match r.below(4) { 0 => Some(*r.pick(&pool)), 1 => Some(a), _ => None }) }).collect()
+            }
+            _ => net.edges.iter().map(|_| (r.below(360) as i64, if r.chance(1, 3) { Some(r.below(360) as i64) } else { None })).collect(),
+        };
+        let base = *r.pick(&[0.5, 1.0, 2.5]);
+        let mut order: Vec<usize> = (0..TURNS.len()).collect();
+        r.shuffle(&mut order);
+        let no_turn_free = r.chance(1, 5);
+        let table = TURNS.iter().enumerate().map(|(i, t)| (t.to_string(), if i == 0 && no_turn_free { 0.0 } else { base * (order[i] as f64 + 1.0) })).collect();
+        return TurnCfg { headings, table, unit: r.pick(&TIME).to_string() };
+    }
     let headings = if r.chance(1, 2) {
         geo_headings(net)
     } else {
@@ -1598,11 +1786,21 @@ fn gen_case(r: &mut Rng, stream: &str) -> (String, Cfg, Qry, Vec<&'static str>) 
         if r.chance(1, 5) {
             c.vrates = vec![("distance".into(), VRate::Factor(*r.pick(&[0.5, 2.0]))), ("time".into(), VRate::Factor(*r.pick(&[0.25, 3.0])))];
         }
+        if sums && r.chance(1, 5) {
+            // a chain applied in order: offset BEFORE factor, factor before offset, nested
+            let chain = match r.below(3) {
+                0 => vec![VRate::Offset(*r.pick(&[25.0, 4.0, 100.0])), VRate::Factor(*r.pick(&[0.01, 0.5, 2.0]))],
+                1 => vec![VRate::Factor(*r.pick(&[0.5, 2.0])), VRate::Offset(*r.pick(&[3.0, 10.0]))],
+                _ => vec![VRate::Offset(*r.pick(&[2.0, 8.0])), VRate::Combined(vec![VRate::Factor(0.5), VRate::Offset(1.5), VRate::Factor(*r.pick(&[0.25, 4.0]))])],
+            };
+            let k = r.below(2) as usize;
+            c.vrates = vec![("distance".into(), if k == 0 { VRate::Combined(chain.clone()) } else { VRate::Raw }), ("time".into(), if k == 1 { VRate::Combined(chain) } else { VRate::Factor(0.5) })];
+        }
         if r.chance(1, 5) {
             c.state = vec![("soc".into(), Feat::Custom("soc".into(), 0.5))];
         }
         if r.chance(1, 2) {
-            c.turn = Some(gen_turn(r, &c.net));
+            c.turn = Some(gen_turn(r, &c.net, sums));
         }
     }
     c.summary = r.chance(3, 4);
@@ -1783,6 +1981,93 @@ impl FFiles {
         self.dir.join(format!("frontier{}.{}", self.n, ext))
     }
 }
+/// A CSV table the application reads BY HEADER NAME (restricted-turn file, vehicle restriction file; the road class file
+/// is headerless).  `layout` picks column order and extra columns: a quarter canonical, otherwise the named columns are
+/// permuted and unrelated columns are added before / between / after them (same scheme as harness/src/bin/c04.rs; seeded/C04-11).
+fn csv_with_layout(cols: &[&str], rows: &[Vec<String>], layout: u64) -> String {
+    let n = cols.len();
+    let (perm_ix, extras) = if layout % 4 == 0 { (0u64, 0u64) } else { ((layout / 4) % (1..=n as u64).product::<u64>(), (layout / 4 / 24) % 5) };
+    let mut pool: Vec<usize> = (0..n).collect();
+    let mut order: Vec<usize> = vec![];
+    let mut k = perm_ix;
+    for i in (1..=n).rev() {
+        let f: u64 = (1..i as u64).product();
+        let j = (k / f) as usize;
+        k %= f;
+        order.push(pool.remove(j));
+    }
+    let mut plan: Vec<Result<usize, usize>> = vec![];
+    if extras == 1 || extras == 4 {
+        plan.push(Err(0));
+    }
+    for (i, c) in order.iter().enumerate() {
+        plan.push(Ok(*c));
+        if i == 0 && (extras == 2 || extras == 4) {
+            plan.push(Err(1));
+        }
+    }
+    if extras == 3 || extras == 4 {
+        plan.push(Err(2));
+    }
+    let extra_names = ["row_id", "way_id", "source"];
+    let mut out = plan.iter().map(|c| match c { Ok(i) => cols[*i].to_string(), Err(k) => extra_names[*k].to_string() }).collect::<Vec<_>>().join(",");
+    out.push('\n');
+    for (ri, row) in rows.iter().enumerate() {
+        let line = plan
+            .iter()
+            .map(|c| match c {
+                Ok(i) => row[*i].clone(),
+                Err(0) => ri.to_string(),
+                Err(1) => ((ri * 7 + 3) % 11).to_string(),
+                Err(_) => "survey".to_string(),
+            })
+            .collect::<Vec<_>>()
+            .join(",");
+        out.push_str(&line);
+        out.push('\n');
+    }
+    out
+}
+/// the file layout of a table is a function of the table's content (replays reproduce it)
+fn flayout(c: &FCfg) -> u64 {
+    // SplitMix64 finaliser over FNV (whose low bits depend on the low bits of the input bytes only)
+    let mix64 = |mut z: u64| {
+        z = (z ^ (z >> 30)).wrapping_mul(0xBF58_476D_1CE4_E5B9);
+        z = (z ^ (z >> 27)).wrapping_mul(0x94D0_49BB_1331_11EB);
+        z ^ (z >> 31)
+    };
+    match c {
+        FCfg::Turn { pairs } => mix64(fnv(&format!("turn{:?}", pairs))),
+        FCfg::Vehicle { rows } => mix64(fnv(&rows.iter().map(|(e, n, v, u)| format!("{}|{}|{}|{};", e, n, bits(*v), u)).collect::<String>())),
+        _ => 0,
+    }
+}
+fn flayout_kind(c: &FCfg) -> String {
+    let n = match c { FCfg::Turn { .. } => 2u64, FCfg::Vehicle { .. } => 24, _ => return "n/a".into() };
+    let l = flayout(c);
+    if l % 4 == 0 { "canonical".into() } else { format!("perm{}_extras{}", if (l / 4) % n == 0 { "Id" } else { "X" }, (l / 4 / 24) % 5) }
+}
+/// the same turn table with a file layout of the wanted kind (repeats the first pair until the content hash gives it)
+fn turn_with_layout(pairs: &[(usize, usize)], kind: &str) -> FCfg {
+    let mut p = pairs.to_vec();
+    for _ in 0..400 {
+        let c = FCfg::Turn { pairs: p.clone() };
+        if flayout_kind(&c) == kind {
+            return c;
+        }
+        p.push(pairs[0]);
+    }
+    panic!("no turn table with layout {}", kind)
+}
+fn count_flayouts(st: &mut Stream, c: &FCfg) {
+    match c {
+        FCfg::Combined(inner) => inner.iter().for_each(|i| count_flayouts(st, i)),
+        FCfg::Turn { .. } => st.count(&format!("turn_file:{}", flayout_kind(c))),
+        FCfg::Vehicle { .. } => st.count(&format!("vehicle_file:{}", flayout_kind(c))),
+        _ => {}
+    }
+}
+
 /// the [frontier] section the application reads, with the raw tables written to files next to the network
 fn fcfg_config_json(c: &FCfg, files: &mut FFiles) -> Value {
     match c {
@@ -1799,19 +2084,15 @@ fn fcfg_config_json(c: &FCfg, files: &mut FFiles) -> Value {
         }
         FCfg::Vehicle { rows } => {
             let p = files.path("csv");
-            let mut body = String::from("edge_id,restriction_name,restriction_value,restriction_unit\n");
-            for (e, n, v, u) in rows {
-                body.push_str(&format!("{},{},{:?},{}\n", e, n, v, u));
-            }
+            let table: Vec<Vec<String>> = rows.iter().map(|(e, n, v, u)| vec![e.to_string(), n.clone(), format!("{:?}", v), u.clone()]).collect();
+            let body = csv_with_layout(&["edge_id", "restriction_name", "restriction_value", "restriction_unit"], &table, flayout(c));
             std::fs::write(&p, body).unwrap();
             json!({"type": "vehicle_restriction", "vehicle_restriction_input_file": p.to_str().unwrap()})
         }
         FCfg::Turn { pairs } => {
             let p = files.path("csv");
-            let mut body = String::from("prev_edge_id,next_edge_id\n");
-            for (a, b) in pairs {
-                body.push_str(&format!("{},{}\n", a, b));
-            }
+            let table: Vec<Vec<String>> = pairs.iter().map(|(a, b)| vec![a.to_string(), b.to_string()]).collect();
+            let body = csv_with_layout(&["prev_edge_id", "next_edge_id"], &table, flayout(c));
             std::fs::write(&p, body).unwrap();
             json!({"type": "turn_restriction", "turn_restriction_input_file": p.to_str().unwrap()})
         }
@@ -2073,11 +2354,12 @@ struct RouteOut {
     recs: Vec<EdgeTraversal>,
     summary: Vec<(String, f64)>,
     cost: Vec<(String, f64)>,
+    echo: String,
 }
 /// `route` of a successful response: null (no route), one object, or an array of objects
 fn parse_routes(v: &Value, malformed: &mut Vec<String>) -> Vec<RouteOut> {
     let one = |route: &Value, malformed: &mut Vec<String>| -> RouteOut {
-        let mut ro = RouteOut { path: vec![], recs: vec![], summary: kv_f64(route.get("traversal_summary").unwrap_or(&Value::Null)), cost: kv_f64(route.get("cost").unwrap_or(&Value::Null)) };
+        let mut ro = RouteOut { path: vec![], recs: vec![], summary: kv_f64(route.get("traversal_summary").unwrap_or(&Value::Null)), cost: kv_f64(route.get("cost").unwrap_or(&Value::Null)), echo: echo_of(route.get("cost_model").unwrap_or(&Value::Null)) };
         match route.get("path").and_then(|p| p.as_array()) {
             None => malformed.push("route without path".into()),
             Some(p) => {
@@ -2220,6 +2502,7 @@ fn add_frontier(cx: &mut Ctx, fam: &str, c: &Cfg, q: &Qry) {
             st.count(&format!("has:{}", kd));
         }
     }
+    count_flayouts(st, &fc);
     st.count(&format!("road_classes:{}", match q.extra.get("road_classes") { None => "absent", Some(Value::Array(a)) if a.iter().all(|x| x.is_string()) && !a.is_empty() => "names", Some(Value::Array(_)) => "numbers", _ => "other" }));
     st.count(&format!("destination:{}", if q.d.is_some() { "some" } else { "none" }));
     st.count(&format!("tree_fmt:{}", c.tree_fmt.clone().unwrap_or("none".into())));
@@ -2305,6 +2588,11 @@ fn frontier_shapes() -> Vec<(String, Cfg, Qry)> {
         no_axles.as_object_mut().unwrap().remove("number_of_axles");
         mk("vehicle_field_missing", vehc.clone(), ex(&[("vehicle_parameters", no_axles)]), false, 0, Some(3));
         mk("turn_forbids_short_path", turn.clone(), Map::new(), false, 0, Some(3));
+        // the same table in files whose columns are not in the canonical order (seeded/C04-11)
+        let tpairs = [(0usize, 1usize), (4, 5), (1, 0), (5, 4)];
+        mk("turn_file_columns_swapped", turn_with_layout(&tpairs, "permX_extras0"), Map::new(), false, 0, Some(3));
+        mk("turn_file_leading_column", turn_with_layout(&tpairs, "permId_extras1"), Map::new(), false, 0, Some(3));
+        mk("turn_file_swapped_and_extras", turn_with_layout(&tpairs, "permX_extras4"), Map::new(), false, 3, Some(0));
         mk("turn_back", turn.clone(), Map::new(), false, 3, Some(0));
         mk("turn_no_destination", turn.clone(), Map::new(), false, 0, None);
         mk("combined_class_turn", FCfg::Combined(vec![rc(&named), turn.clone()]), ex(&[("road_classes", json!(["road", "path"]))]), false, 0, Some(3));
@@ -3137,6 +3425,41 @@ fn main() {
         }
         if a.stream == "app_limits" {
             add_limits(&mut cx, &fam, &c, &q, None, &mut r);
+        } else if a.stream == "app_sums" && r.chance(1, 4) {
+            // a sequence of 2-4 queries on one application instance; the first one overrides a part of the cost model
+            let mut c = c.clone();
+            let mut q0 = q.clone();
+            let has_time = matches!(c.tm, Tm::Speed { .. });
+            match r.below(if has_time { 3 } else { 2 }) {
+                0 => q0.weights = Some(if has_time { vec![("distance".into(), 1.0), ("time".into(), 0.0)] } else { vec![("distance".into(), *r.pick(&[0.5, 3.0]))] }),
+                1 => q0.vrates = Some(if has_time { vec![("distance".into(), VRate::Factor(*r.pick(&[0.125, 2.0]))), ("time".into(), VRate::Combined(vec![VRate::Offset(2.0), VRate::Factor(0.5)]))] } else { vec![("distance".into(), VRate::Combined(vec![VRate::Offset(10.0), VRate::Factor(*r.pick(&[0.25, 3.0]))]))] }),
+                _ => {
+                    q0.agg = Some("mul".into());
+                    c.astar = false;
+                }
+            }
+            let mut steps = vec![q0];
+            let n = 2 + r.below(3) as usize;
+            while steps.len() < n {
+                let mut qk = plain_q(q.o, q.d);
+                if r.chance(1, 2) {
+                    qk.o = pick_origin(&mut r, &c, &[]);
+                    qk.d = Some(pick_target(&mut r, &c, &[], qk.o, 96));
+                }
+                qk.user = q.user.clone();
+                if steps.len() >= 2 && r.chance(1, 3) {
+                    qk.weights = q.weights.clone().or(Some(c.weights.iter().map(|(n, w)| (n.clone(), w + 0.5)).collect()));
+                }
+                steps.push(qk);
+            }
+            for k in 0..steps.len() {
+                if cx.st.next_id() >= a.n {
+                    break;
+                }
+                let mut qk = steps[k].clone();
+                qk.prefix = steps[..k].to_vec();
+                add(&mut cx, "random_sequence", &c, &qk);
+            }
         } else {
             add(&mut cx, &fam, &c, &q);
         }
